@@ -107,13 +107,6 @@ Definition hex2byte (v1 v2 : N) : option N :=
 Definition uuid_order : list (nat * nat) :=
   [(6,7);(4,5);(2,3);(0,1);(11,12);(9,10);(16,17);(14,15);(19,20);(21,22);(24,25);(26,27);(28,29);(30,31);(32,33);(34,35)]%nat.
 
-Fixpoint opt_all {A} (l : list (option A)) : option (list A) :=
-  match l with
-  | [] => Some []
-  | Some x :: r => option_map (cons x) (opt_all r)
-  | None :: _ => None
-  end.
-
 Definition uuid_bytes (s : list N) : option (list N) :=
   do _ <- assert (Nat.eqb (length s) 36);
   do _ <- assert ((nth 8 s 0 =? 45) && (nth 13 s 0 =? 45) && (nth 18 s 0 =? 45) && (nth 23 s 0 =? 45));
